@@ -36,6 +36,7 @@ func c03Spec(tier string) *Spec {
 	seeds := []Seed{
 		{Name: "empty"},
 		{Name: "strings", Prog: []Op{C("SET", k0, "a\r\nb"), C("SET", crlfKey, "+OK")}},
+		{Name: "empty-strings", Prog: []Op{C("SET", k0, ""), C("SET", crlfKey, "")}},
 		{Name: "list", Prog: []Op{C(append([]string{"RPUSH", k0}, pay...)...), C("RPUSH", crlfKey, "$3")}},
 		{Name: "hash", Prog: []Op{C("HSET", k0, "f\r\n", "a\r\nb", "", "\r\n", "+OK", "$3"), C("HSET", crlfKey, "f", "v")}},
 		{Name: "set", Prog: []Op{C(append([]string{"SADD", k0}, pay...)...), C("SADD", crlfKey, "\r\n")}},
